@@ -603,7 +603,7 @@ func runC16(c *Ctx) {
 							has = true
 						}
 					}
-					for _, s := range b.Succs {
+					for _, s := range liveSuccs(b) {
 						walk(s)
 					}
 				}
